@@ -4,6 +4,7 @@ import (
 	"fmt"
 	"go/token"
 	"go/types"
+	"math"
 	"math/big"
 	"sort"
 	"strings"
@@ -521,6 +522,15 @@ func (p *proverCtx) lin(v ssa.Value) *linexp {
 		}
 	case *ssa.Convert:
 		st, dt := x.X.Type(), x.Type()
+		if isFloat(st) && isInteger(dt) {
+			// int(f): truncation is monotone, so an interval of f bounds the result
+			if lo, hi, ok := p.floatRange(x.X, 0); ok && lo > -1e15 && hi < 1e15 {
+				e := p.varFor(lvar{v: v, kind: 'v'})
+				p.addFact(e.addConst(-int64(math.Trunc(lo))), "interval of the float expression (lower)")
+				p.addFact(e.scale(-1).addConst(int64(math.Trunc(hi))), "interval of the float expression (upper)")
+				return e
+			}
+		}
 		if isInteger(st) && isInteger(dt) {
 			sb, db := intBits(st), intBits(dt)
 			su, du := isUnsigned(st), isUnsigned(dt)
@@ -573,6 +583,24 @@ func (p *proverCtx) lin(v ssa.Value) *linexp {
 			return e
 		}
 		if sc := x.Call.StaticCallee(); sc != nil && inModule(sc) && isInteger(x.Type()) {
+			// a straight-line helper (one block, one result) is read as its expression with the arguments
+			// substituted for the parameters: the bounds of the arguments at THIS call carry into the result
+			if h := plainHelper(sc); h != nil && len(h.Blocks) == 1 && h.Signature.Results().Len() == 1 && p.depth < 3 {
+				if rets := returnsOf(h); len(rets) == 1 && pureExpr(retVal(rets[0], 0), 0) {
+					if p.subst == nil {
+						p.subst = map[ssa.Value]ssa.Value{}
+					}
+					for i, prm := range h.Params {
+						if i < len(x.Call.Args) {
+							p.subst[prm] = x.Call.Args[i]
+						}
+					}
+					p.depth++
+					e := p.lin(retVal(rets[0], 0))
+					p.depth--
+					return e
+				}
+			}
 			e := p.varFor(lvar{v: v, kind: 'v'})
 			lo, hi, hasLo, hasHi := p.c.resultRange(origin(sc), 0)
 			if hasLo {
@@ -809,6 +837,40 @@ func (c *Ctx) newProver(f *ssa.Function, b *ssa.BasicBlock) *proverCtx {
 	fts := factsAt(f, b)
 	for i := len(fts) - 1; i >= 0; i-- {
 		p.condFacts(fts[i].Cond, fts[i].Truth, "branch "+c.rel(condPosOf(fts[i])))
+	}
+	// a string that has the constant prefix P and the constant suffix Q is at least len(P)+len(Q) long when
+	// P and Q cannot overlap (no proper suffix of P is a prefix of Q): "Anycast(" ... ")" has >= 9 bytes
+	pre, suf := map[ssa.Value]string{}, map[ssa.Value]string{}
+	for _, ft := range fts {
+		cl, ok := ft.Cond.(*ssa.Call)
+		if !ok || !ft.Truth {
+			continue
+		}
+		k, isC := constString(cl.Call.Args[len(cl.Call.Args)-1])
+		if !isC {
+			continue
+		}
+		switch callQName(&cl.Call) {
+		case "strings.HasPrefix":
+			pre[cl.Call.Args[0]] = k
+		case "strings.HasSuffix":
+			suf[cl.Call.Args[0]] = k
+		}
+	}
+	for v, pp := range pre {
+		q, ok := suf[v]
+		if !ok {
+			continue
+		}
+		overlap := false
+		for k := 1; k <= len(pp) && k <= len(q); k++ {
+			if pp[len(pp)-k:] == q[:k] {
+				overlap = true
+			}
+		}
+		if !overlap {
+			p.addFact(p.varFor(lvar{v: v, kind: 'l'}).addConst(int64(-len(pp)-len(q))), "constant prefix and suffix that cannot overlap")
+		}
 	}
 	return p
 }
@@ -1370,4 +1432,141 @@ func (c *Ctx) resultLen(f *ssa.Function, idx int) (int64, bool) {
 	}
 	c.lenMemo[key{f, idx}] = [2]int64{k, 1}
 	return k, true
+}
+
+func isFloat(t types.Type) bool {
+	b, ok := t.Underlying().(*types.Basic)
+	return ok && b.Info()&types.IsFloat != 0
+}
+
+// pureExpr: v is computed from parameters and constants by arithmetic, conversions and calls of
+// math / math/bits functions only (no loads, no phis): it means the same wherever it is evaluated.
+func pureExpr(v ssa.Value, d int) bool {
+	if d > 12 {
+		return false
+	}
+	switch x := v.(type) {
+	case *ssa.Const, *ssa.Parameter:
+		return true
+	case *ssa.Convert:
+		return pureExpr(x.X, d+1)
+	case *ssa.ChangeType:
+		return pureExpr(x.X, d+1)
+	case *ssa.BinOp:
+		return pureExpr(x.X, d+1) && pureExpr(x.Y, d+1)
+	case *ssa.UnOp:
+		return x.Op != token.MUL && x.Op != token.ARROW && pureExpr(x.X, d+1)
+	case *ssa.Call:
+		q := callQName(&x.Call)
+		if !strings.HasPrefix(q, "math.") && !strings.HasPrefix(q, "math/bits.") {
+			return false
+		}
+		for _, a := range x.Call.Args {
+			if !pureExpr(a, d+1) {
+				return false
+			}
+		}
+		return true
+	}
+	return false
+}
+
+// floatRange: an interval containing the float64 value v, by interval arithmetic over constants,
+// conversions of bounded integers, + - * / by constants, math.Ceil / Floor / Max / Min.
+func (p *proverCtx) floatRange(v ssa.Value, d int) (lo, hi float64, ok bool) {
+	if d > 12 {
+		return 0, 0, false
+	}
+	if s, has := p.subst[v]; has {
+		return p.floatRange(s, d+1)
+	}
+	switch x := v.(type) {
+	case *ssa.Const:
+		if f, ok := constNum(x); ok {
+			return f, f, true
+		}
+	case *ssa.Convert:
+		if isFloat(x.X.Type()) {
+			return p.floatRange(x.X, d+1)
+		}
+		if isInteger(x.X.Type()) {
+			e := p.lin(x.X)
+			l, okL := findBound(p, e, true)
+			h, okH := findBound(p, e, false)
+			if okL && okH {
+				return float64(l), float64(h), true
+			}
+		}
+	case *ssa.ChangeType:
+		return p.floatRange(x.X, d+1)
+	case *ssa.BinOp:
+		al, ah, ok1 := p.floatRange(x.X, d+1)
+		bl, bh, ok2 := p.floatRange(x.Y, d+1)
+		if !ok1 || !ok2 {
+			return 0, 0, false
+		}
+		switch x.Op {
+		case token.ADD:
+			return al + bl, ah + bh, true
+		case token.SUB:
+			return al - bh, ah - bl, true
+		case token.MUL:
+			c := []float64{al * bl, al * bh, ah * bl, ah * bh}
+			return minF(c), maxF(c), true
+		case token.QUO:
+			if bl > 0 || bh < 0 {
+				c := []float64{al / bl, al / bh, ah / bl, ah / bh}
+				return minF(c), maxF(c), true
+			}
+		}
+	case *ssa.Call:
+		q := callQName(&x.Call)
+		switch q {
+		case "math.Ceil", "math.Floor", "math.Round", "math.Trunc":
+			l, h, ok := p.floatRange(x.Call.Args[0], d+1)
+			if !ok {
+				return 0, 0, false
+			}
+			switch q {
+			case "math.Ceil":
+				return math.Ceil(l), math.Ceil(h), true
+			case "math.Floor":
+				return math.Floor(l), math.Floor(h), true
+			case "math.Round":
+				return math.Round(l), math.Round(h), true
+			}
+			return math.Trunc(l), math.Trunc(h), true
+		case "math.Max", "math.Min":
+			al, ah, ok1 := p.floatRange(x.Call.Args[0], d+1)
+			bl, bh, ok2 := p.floatRange(x.Call.Args[1], d+1)
+			if !ok1 || !ok2 {
+				return 0, 0, false
+			}
+			if q == "math.Max" {
+				return math.Max(al, bl), math.Max(ah, bh), true
+			}
+			return math.Min(al, bl), math.Min(ah, bh), true
+		}
+	}
+	return 0, 0, false
+}
+
+func minF(xs []float64) float64 {
+	m := xs[0]
+	for _, x := range xs {
+		if x < m {
+			m = x
+		}
+	}
+	return m
+}
+
+func maxF(xs []float64) float64 {
+	m := xs[0]
+	for _, x := range xs {
+		if x > m {
+			m = x
+		}
+	}
+	return m
 }
